@@ -223,6 +223,21 @@ def run(chk, facts):
         chk.ob("R-C19-4", "caret:start=(1,1)", ok, "positions are 1-based: CaretPos::start() = (1, 1)" if ok else f"CaretPos::start() is `{src(cs['body'])}`", facts.loc_of(cs))
     except AnchorError as e:
         chk.anchor_fail("R-C19-4", e)
+    # the line a diagnostic names is the line the lexer counted: the two places where a token moves the caret to another line are
+    # part of this property too (shared with R-C18-2: a string moves the line by lines().count().saturating_sub(1))
+    from . import c18
+    n0 = len(chk.obligations)
+    rules0 = dict(chk.rules)
+    counts0 = dict(chk.counts)
+    c18.run(chk, facts)
+    keep = [o for o in chk.obligations[n0:] if o["key"] in ("R-C18-2|State::token:lines", "R-C18-2|Lex::new:end=start+width", "R-C18-2|State::newline")]
+    chk.obligations = chk.obligations[:n0] + keep
+    chk.rules = rules0
+    chk.rules["R-C18-2"] = "line bookkeeping of the lexer (shared with C18): strings move the line by lines().count().saturating_sub(1); a newline moves to the next line, column 1"
+    chk.counts.clear()
+    chk.counts.update(counts0)
+    chk.counts["R-C18-2"] = len(keep)
+    chk.notes = [n_ for n_ in chk.notes if not n_.startswith("C18")]
     chk.notes.append("C19: provenance of every rendered error; non-emptiness of every Err(vector); renderer obligations shared with the C03 census.")
 
 
